@@ -144,3 +144,59 @@ func VerifH_C18_PipelineClose() {
 	_, err := t.ExchangeContext(context.Background(), vQuery12(9, 1))
 	verifrt.Assert(err != nil, "exchanges after Close fail")
 }
+
+// VerifH_C18_StatusNeverLies: connpool forgets (without closing) a connection whose Status().Closed is true, so
+// from ANY state of a pipelined connection satisfying the representation invariant, "Closed" must be reported
+// only when the socket really has been closed – otherwise the pool loses track of a live socket and Close()
+// cannot reach it any more.
+func VerifH_C18_StatusNeverLies() {
+	conn := &vConn{}
+	c, _, _, _, _, _, _ := vPipelineConn(verifrt.Bool("tcp"), conn)
+	if verifrt.Bool("closed") {
+		c.closeWithErr(nil)
+	}
+	st := c.Status()
+	verifrt.Reach("status")
+	verifrt.Assert(!st.Closed || conn.closed > 0, "a connection reported closed to the pool has really been closed")
+	verifrt.Assert(st.Closed || conn.closed == 0, "a closed connection is reported closed")
+}
+
+// VerifH_C18_PipelineEoLClose: the real pool with a connection that hands out its last wire ID while that exchange
+// is still unanswered; a second exchange moves on to a fresh connection; then the transport is closed. Both
+// sockets must be closed and the unanswered exchange must end.
+func VerifH_C18_PipelineEoLClose() {
+	verifrt.Unwind(80)
+	verifrt.SchedBound(1)
+	var conns []*vNetConn
+	t := NewPipelineTransport(PipelineOpts{IsTCP: true, DialContext: func(ctx context.Context) (net.Conn, error) {
+		c := newVNetConn()
+		conns = append(conns, c)
+		if len(conns) > 1 {
+			go vServe(c) // only later connections have an answering server
+		}
+		return c, nil
+	}})
+	c0, _, err := t.getConn(context.Background())
+	verifrt.Assert(err == nil && len(conns) == 1, "first connection dialled")
+	// the connection has already carried 65535 (thorough: any number up to that) exchanges
+	c0.m.Lock()
+	c0.nextQid = 65535
+	c0.reserved = 0
+	c0.m.Unlock()
+	t.releaseConn(c0)
+	resA := make(chan vExRes, 1)
+	go func() { r, err := t.ExchangeContext(context.Background(), vQuery12(0x1111, 1)); resA <- vExRes{r, err} }()
+	<-conns[0].outbox // A's query is on the wire with the last ID; the server stays silent
+	verifrt.Assert(c0.nextQid == 65536, "the last wire ID was handed out")
+	rB, errB := t.ExchangeContext(context.Background(), vQuery12(0x2222, 2))
+	verifrt.Assert(errB == nil && rB.Header.ID == 0x2222 && rB.Header.RCode == 2, "exchange B is served on a fresh connection")
+	verifrt.Assert(len(conns) == 2, "B did not reuse the exhausted connection")
+	verifrt.Assert(t.Close() == nil, "close returns")
+	verifrt.Reach("closed")
+	for _, c := range conns {
+		verifrt.Assert(c.closed, "no upstream connection stays open after Close (also one that ran out of IDs with a query in flight)")
+	}
+	rA := <-resA
+	verifrt.Reach("A-ended")
+	verifrt.Assert(rA.m == nil && rA.err != nil, "the unanswered exchange ends with an error when the transport is closed")
+}
